@@ -1,12 +1,12 @@
 (* C15 — optimum search.  Only statements, each closed by [exact]. *)
-From Coq Require Import List Arith Lia PeanoNat ZArith.
-From TV Require Import Num.Ops Lin.Tab Lin.Mat TT.Chain Model.ActOne Model.Optima Proofs.ActOneP2 Proofs.OptimaP.
+From Coq Require Import List Arith Lia PeanoNat ZArith Reals Permutation.
+From TV Require Import Num.Ops Lin.Tab Lin.Mat TT.Chain Model.ActOne Model.Optima Proofs.ActOneP2
+  Model.GridInd Model.OptimaFunc Proofs.OptimaP Proofs.OptimaP2 Proofs.OptimaRP Proofs.OptimaQP Proofs.OptimaExP Proofs.OptimaFuncP.
 Import ListNotations.
 
-(* beam invariant (Kronecker bookkeeping), any commutative ring, both directions, any selection that
-   indexes into its argument: every row of the final table is in bounds and the carried entry is
-   s^d times the tensor entry at that row *)
-Theorem C15_beam_rows : forall {T} (K : ops T), rng K ->
+(* beam_inv (Kronecker bookkeeping): any commutative ring, both sweep directions, ANY selection that indexes into its
+   argument: every row of the final table is in bounds and the carried entry is s^d times the tensor entry at that row *)
+Theorem C15_beam_inv : forall {T} (K : ops T), rng K ->
   forall (argsort : nat -> list T -> list nat),
   (forall c l, Forall (fun t => t < length l) (argsort c l)) ->
   forall cs (Z : list (core T)) k l2r s, chain 1 Z 1 -> Z <> [] ->
@@ -16,3 +16,135 @@ Theorem C15_beam_rows : forall {T} (K : ops T), rng K ->
     inb (shape Z) (nth t (st_tab st) []) /\
     qent K l2r (st_mat st) t O = omul K (pown K s (length Z)) (get K Z (nth t (st_tab st) [])).
 Proof. exact @beam_rows. Qed.
+
+(* the returned first row exists and is in bounds for every k >= 1 (argsort returns a permutation) *)
+Theorem C15_beam_first_inb : forall {T} (K : ops T), rng K ->
+  forall (argsort : nat -> list T -> list nat), argsort_perm argsort ->
+  forall cs (Z : list (core T)) k l2r s, chain 1 Z 1 -> Z <> [] ->
+  Forall (fun n => 1 <= n) (shape Z) -> 1 <= k ->
+  inb (shape Z) (hd [] (st_tab (beam_run K argsort cs Z k l2r s))).
+Proof. exact @beam_first_inb. Qed.
+
+(* beam_full_exact (reals): k >= number of elements, either direction: the first row has maximal modulus *)
+Theorem C15_beam_full_exact : forall argsort, argsort_ok argsort ->
+  forall cs (Z : list (core R)) k l2r s, s <> 0%R -> chain 1 Z 1 -> 2 <= length Z ->
+  Forall (fun n => 1 <= n) (shape Z) -> nel (shape Z) <= k ->
+  let i0 := hd [] (st_tab (beam_run OR argsort cs Z k l2r s)) in
+  inb (shape Z) i0 /\ forall idx, inb (shape Z) idx -> (Rabs (get OR Z idx) <= Rabs (get OR Z i0))%R.
+Proof. exact beam_full_exact. Qed.
+
+(* beam_rank1_exact (reals): all TT-ranks 1, ANY k >= 1, either direction *)
+Theorem C15_beam_rank1_exact : forall argsort, argsort_ok argsort ->
+  forall cs (Z : list (core R)) k l2r s, s <> 0%R -> chain 1 Z 1 -> 2 <= length Z ->
+  Forall (fun n => 1 <= n) (shape Z) -> Forall (fun G => cr1 G = 1 /\ cr2 G = 1) Z -> 1 <= k ->
+  let i0 := hd [] (st_tab (beam_run OR argsort cs Z k l2r s)) in
+  inb (shape Z) i0 /\ forall idx, inb (shape Z) idx -> (Rabs (get OR Z idx) <= Rabs (get OR Z i0))%R.
+Proof. exact beam_rank1_exact. Qed.
+
+(* optima_tt_max (orthogonalize, both directions, best of two): index in bounds, value = entry; maximal modulus
+   when k >= number of elements or the tensor has rank 1 *)
+Theorem C15_optima_tt_max_exact : forall argsort, argsort_ok argsort -> forall orth, orth_ok orth ->
+  forall pow2frac, (forall p d, pow2frac p d <> 0%R) ->
+  forall co cs (Y : list (core R)) k, good Y -> exact_cond Y k ->
+  let r := optima_tt_max OR argsort orth pow2frac co cs Y k in
+  inb (shape Y) (fst r) /\ snd r = get OR Y (fst r) /\
+  forall idx, inb (shape Y) idx -> (Rabs (get OR Y idx) <= Rabs (snd r))%R.
+Proof. exact optima_tt_max_exact. Qed.
+
+(* values_true for optima_tt, every k >= 1: indices in bounds, values are the entries there, y_min <= y_max *)
+Theorem C15_optima_tt_values : forall argsort, argsort_ok argsort -> forall orth, orth_ok orth ->
+  forall pow2frac droot,
+  forall co cs (Y : list (core R)) k, good Y -> 1 <= k ->
+  let r := optima_tt OR argsort orth pow2frac droot co cs Y k in
+  inb (shape Y) (r_imin r) /\ inb (shape Y) (r_imax r) /\
+  r_ymin r = get OR Y (r_imin r) /\ r_ymax r = get OR Y (r_imax r) /\ (r_ymin r <= r_ymax r)%R.
+Proof. exact optima_tt_values. Qed.
+
+(* minmax_from_absmax: the order argument of the squared shifted step, any sign pattern, ties, constants *)
+Theorem C15_minmax_from_absmax : forall (D : list nat -> Prop) (f : list nat -> R) i1 i2,
+  D i1 -> D i2 -> (forall idx, D idx -> (Rabs (f idx) <= Rabs (f i1))%R) ->
+  (forall idx, D idx -> (Rabs ((f idx - f i1) * (f idx - f i1)) <= Rabs ((f i2 - f i1) * (f i2 - f i1)))%R) ->
+  forall idx, D idx ->
+    if Rltb (f i1) (f i2) then (f i1 <= f idx <= f i2)%R else (f i2 <= f idx <= f i1)%R.
+Proof. exact minmax_core. Qed.
+
+(* optima_tt with k >= number of elements reports the true minimum and the true maximum *)
+Theorem C15_optima_tt_exact_full : forall argsort, argsort_ok argsort -> forall orth, orth_ok orth ->
+  forall pow2frac, (forall p d, pow2frac p d <> 0%R) -> forall droot,
+  forall co cs (Y : list (core R)) k, good Y -> droot_ok droot -> nel (shape Y) <= k ->
+  let r := optima_tt OR argsort orth pow2frac droot co cs Y k in
+  forall idx, inb (shape Y) idx -> (r_ymin r <= get OR Y idx <= r_ymax r)%R.
+Proof. exact optima_tt_exact_full. Qed.
+
+(* qtt_agrees: optima_qtt is optima_tt on the quantised tensor, both indices mapped back through ind_qtt_to_tt; indices in the
+   bounds of Y, values are the entries of Y there, min <= max; every k >= 1, every q >= 1, every d >= 2 *)
+Theorem C15_qtt_agrees : forall argsort, argsort_ok argsort -> forall orth, orth_ok orth ->
+  forall pow2frac droot to_qtt co cs (Y : list (core R)) q d k,
+  qtt_ok_at to_qtt Y q d -> good Y -> shape Y = repeat (2 ^ q) d -> 1 <= q -> 1 <= k ->
+  let rq := optima_tt OR argsort orth pow2frac droot co cs (to_qtt Y) k in
+  exists jmin jmax,
+    optima_qtt OR argsort orth pow2frac droot to_qtt co cs Y k = Ok (jmin, get OR Y jmin, jmax, get OR Y jmax) /\
+    ind_qtt_to_tt1 q (r_imin rq) = Ok jmin /\ ind_qtt_to_tt1 q (r_imax rq) = Ok jmax /\
+    inb (shape Y) jmin /\ inb (shape Y) jmax /\
+    get OR Y jmin = r_ymin rq /\ get OR Y jmax = r_ymax rq /\ (get OR Y jmin <= get OR Y jmax)%R.
+Proof. exact qtt_agrees. Qed.
+
+(* the quantised variant with k >= number of elements reports the true minimum and maximum of Y *)
+Theorem C15_optima_qtt_exact_full : forall argsort, argsort_ok argsort -> forall orth, orth_ok orth ->
+  forall pow2frac droot to_qtt co cs (Y : list (core R)) q d k,
+  (forall p e, pow2frac p e <> 0%R) -> droot_ok droot -> qtt_ok_at to_qtt Y q d ->
+  good Y -> shape Y = repeat (2 ^ q) d -> 1 <= q -> nel (shape Y) <= k ->
+  exists jmin jmax,
+    optima_qtt OR argsort orth pow2frac droot to_qtt co cs Y k = Ok (jmin, get OR Y jmin, jmax, get OR Y jmax) /\
+    inb (shape Y) jmin /\ inb (shape Y) jmax /\
+    forall idx, inb (shape Y) idx -> (get OR Y jmin <= get OR Y idx <= get OR Y jmax)%R.
+Proof. exact optima_qtt_exact_full. Qed.
+
+(* unequal mode sizes, a mode size that is not a power of two, or mode size 1: ValueError *)
+Theorem C15_optima_qtt_rejects : forall argsort orth pow2frac droot to_qtt co cs (Y : list (core R)) k,
+  (exists n, In n (tl (shape Y)) /\ n <> hd O (shape Y)) \/ (forall q, hd O (shape Y) <> 2 ^ q) \/ hd O (shape Y) = 1 ->
+  optima_qtt OR argsort orth pow2frac droot to_qtt co cs Y k = Err ValueError.
+Proof. exact optima_qtt_rejects. Qed.
+
+(* functional variant, PARTIAL: every returned point (ret_all or not) has all coordinates in [-1, 1], for ANY behaviour of
+   polyroots, of both argsort calls and of the linear algebra producing the squared partial interpolants.  Missing: that the
+   rank-1 interpolant attains its maximum modulus there (needs an exact root oracle; validated against a fine grid only) *)
+Theorem C15_func_points_in_cube_partial : forall roots argsort1 argsort2 sqpolys d k k_loc,
+  in_cube (optima_func_all OR roots argsort1 argsort2 sqpolys d k k_loc) /\
+  Forall in11 (optima_func_tt_beam OR roots argsort1 argsort2 sqpolys d k k_loc).
+Proof. exact func_points_in_cube. Qed.
+(* ... and has exactly d coordinates, provided the argsort over all candidates indexes into its argument and there is one
+   squared interpolant per kept point (both are facts about the replayed run, compared in the correspondence) *)
+Theorem C15_func_points_dim : forall roots argsort1 argsort2 sqpolys,
+  (forall s l, Forall (fun t => t < length l) (argsort2 s l)) -> forall k k_loc,
+  (forall s, length (sqpolys (S s)) = length (func_step OR roots argsort1 argsort2 sqpolys s None k k_loc)) ->
+  forall d, Forall (fun r => length r = d) (optima_func_all OR roots argsort1 argsort2 sqpolys d k k_loc).
+Proof. exact func_points_dim. Qed.
+(* a constant squared interpolant (mode size 1, vanishing partial interpolant): polyroots is not consulted and the candidates
+   are the two end points (the branch added by commit 7bc82cb) *)
+Theorem C15_func_constant_poly : forall roots s i (c : R), cand_points OR roots s i [c] = [m1 OR; o1 OR].
+Proof. exact cand_constant. Qed.
+
+(* ---- non-vacuity ---- *)
+(* the oracle contracts can be met: stable insertion sort, identity gauge, Rpower x (1/d), constant 1 *)
+Example C15_contracts_satisfiable : exists argsort orth droot (pow2frac : Z -> nat -> R),
+  argsort_ok argsort /\ orth_ok orth /\ droot_ok droot /\ (forall p d, pow2frac p d <> 0%R).
+Proof. exact contracts_satisfiable. Qed.
+(* concrete tensors: rank 1 of shape [3;2;3] with k = 1, rank 2 of shape [2;2] with k = 4 = number of elements *)
+Example C15_example_good :
+  good Y_r1 /\ rank1 Y_r1 /\ exact_cond Y_r1 1 /\ good Y_r2 /\ ~ rank1 Y_r2 /\ exact_cond Y_r2 4.
+Proof. exact example_good. Qed.
+Example C15_example_qtt : good Y_r2 /\ shape Y_r2 = repeat (2 ^ 1) 2 /\ qtt_ok_at (fun Y => Y) Y_r2 1 2.
+Proof. exact example_qtt. Qed.
+
+(* ---- refutation of "rank 1 => true minimum AND maximum for every k" (known finding C15/rank1-minmax-second-beam) ----
+   exact arithmetic (Qc), k = 1, tensor [-2,-1] x [-4,0] x [1,1], oracles meeting the contracts (identity gauge, sorting
+   permutation, 2^(p/d) = 1, 8^(1/3) = 2): optima_tt reports the minimum 4 at [1;0;1], the entry at [0;1;0] is 0 *)
+Example C15_rank1_minmax_refuted :
+  Forall (fun G => cr1 G = 1 /\ cr2 G = 1) Y_ref /\
+  fst (fst (fst ref_result)) = [1; 0; 1] /\
+  Qc_eqb (snd (fst (fst ref_result))) (qz 4) = true /\ Qc_eqb (get OQc Y_ref [1; 0; 1]) (qz 4) = true /\
+  Qc_eqb (get OQc Y_ref [0; 1; 0]) (qz 0) = true /\
+  Qc_ltb (get OQc Y_ref [0; 1; 0]) (snd (fst (fst ref_result))) = true /\
+  Qc_eqb (omul OQc (qz 2) (omul OQc (qz 2) (qz 2))) (qz 8) = true.
+Proof. exact rank1_minmax_refuted. Qed.
